@@ -502,7 +502,7 @@ class StmtMixin:
         tname = s.target.id
         # 1. invariant holds on entry
         for cl, g in self.eval_invs(invs, st, tname, start):
-            self.emit(st, "inv-entry", "loop%d.L%d" % (k, cl.lineno), g, s, "entry: " + cl.text())
+            self.emit(st, "inv-entry", "loop%d" % k, g, s, "entry: " + cl.text())
         # 2. havoc what the body may assign
         names, stores, calls = assigned_names(s.body)
         names.discard(tname)
@@ -560,7 +560,7 @@ class StmtMixin:
                 if oc in (NORMAL, CONTINUE):
                     s2.log = None
                     for cl, g in self.eval_invs(invs, s2, tname, c + step):
-                        self.emit(s2, "inv-keep", "loop%d.L%d" % (k, cl.lineno), g, s, "preserved: " + cl.text())
+                        self.emit(s2, "inv-keep", "loop%d" % k, g, s, "preserved: " + cl.text())
                         if self.opt("chain_invariants", False):
                             # A and B is shown as A, then A -> B: later clauses may use the earlier ones at the new state
                             s2.assume(g)
@@ -616,7 +616,7 @@ class StmtMixin:
                 rest.append((s2, oc, pl))
                 continue
             for cl in afters:
-                self.emit(s2, "after", "loop%d.L%d" % (k, cl.lineno), as_bool(self.eval_spec(cl.expr, s2)), s, "loop exit: " + cl.text())
+                self.emit(s2, "after", "loop%d" % k, as_bool(self.eval_spec(cl.expr, s2)), s, "loop exit: " + cl.text())
         m = st.fork()
         for nm in sorted(set(names) | {tname}):
             if nm in m.vars:
@@ -726,7 +726,7 @@ class StmtMixin:
         if invs is None:
             raise Unsupported("while loop %d (line %d) has no invariant" % (k, s.lineno))
         for cl in invs:
-            self.emit(st, "inv-entry", "loop%d.L%d" % (k, cl.lineno), as_bool(self.eval_spec(cl.expr, st)), s, "entry: " + cl.text())
+            self.emit(st, "inv-entry", "loop%d" % k, as_bool(self.eval_spec(cl.expr, st)), s, "entry: " + cl.text())
         names, stores, calls = assigned_names(s.body)
         hv = st.fork()
         for nm in sorted(names):
@@ -749,7 +749,7 @@ class StmtMixin:
             for (s2, oc, pl) in self.exec_block(s.body, body):
                 if oc in (NORMAL, CONTINUE):
                     for cl in invs:
-                        self.emit(s2, "inv-keep", "loop%d.L%d" % (k, cl.lineno), as_bool(self.eval_spec(cl.expr, s2)), s,
+                        self.emit(s2, "inv-keep", "loop%d" % k, as_bool(self.eval_spec(cl.expr, s2)), s,
                                   "preserved: " + cl.text())
                 elif oc == BREAK:
                     out.append((s2, NORMAL, None))
